@@ -99,7 +99,15 @@ def build_lean(targets):
 
 def build_go(cmds):
     os.makedirs(BIN, exist_ok=True)
-    # go.sum of the harness follows /repo's
+    # go.sum of the harness follows /repo's (union of the lines, so that new dependencies resolve offline)
+    try:
+        have = set(open(os.path.join(HARNESS, "go.sum")).read().split("\n"))
+        want = set(open(os.path.join(REPO, "go.sum")).read().split("\n"))
+        if not want <= have:
+            with open(os.path.join(HARNESS, "go.sum"), "w") as f:
+                f.write("\n".join(sorted(x for x in (have | want) if x)) + "\n")
+    except OSError:
+        pass
     logs = []
     ok = True
     for c in cmds:
@@ -190,7 +198,7 @@ def run_stream(name, gen_cmd, go_cmd, lean_cmd, workdir, timeout=3000):
             "go_err": eg.decode(errors="replace")[-500:], "lean_err": el.decode(errors="replace")[-500:],
             "secs": time.time() - t0}
 
-def compare_stream(st, flag_re, max_report=20):
+def compare_stream(st, flag_re, max_report=20, diff_violation=None):
     """Walk the three files in lockstep. Returns (lines, flagged, diffs, samples, distinct)."""
     flagged, diffs, samples = [], [], []
     n = 0
@@ -205,6 +213,12 @@ def compare_stream(st, flag_re, max_report=20):
             l = fl.readline().rstrip("\n")
             n += 1
             if fr and fr.search(g):
+                if len(flagged) < max_report:
+                    flagged.append({"op": op[:400], "go": g[:400], "lean": l[:400]})
+                else:
+                    flagged.append(None)
+            if g != l and diff_violation and diff_violation(op, g, l):
+                # for this property a disagreement with the reference model is itself the violation
                 if len(flagged) < max_report:
                     flagged.append({"op": op[:400], "go": g[:400], "lean": l[:400]})
                 else:
